@@ -67,8 +67,9 @@ impl VStack {
     fn get_top(&mut self) -> &mut VRegister {
         self.0.last_mut().unwrap()
     }
-    fn find_upvalue(&self, v: &Arc<mir::Value>) -> Option<Reg> {
-        self.0.iter().rev().find_map(|vreg| vreg.find_keep(v))
+    /// Finds `v` among the registers of the function with index `upperfn_i`.
+    fn find_upvalue(&self, upperfn_i: usize, v: &Arc<mir::Value>) -> Option<Reg> {
+        self.0.get(upperfn_i).and_then(|vreg| vreg.find_keep(v))
     }
     pub fn push_stack(&mut self, v: &Arc<mir::Value>, size: u64) -> Reg {
         self.get_top().push_stack(v, size)
@@ -230,9 +231,12 @@ impl ByteCodeGenerator {
             .or_else(|| self.globals.get(v).map(|&v| v as Reg))
             .expect(format!("value {v} not found").as_str())
     }
-    fn find_upvalue(&self, upval: &Arc<mir::Value>) -> Reg {
-        self.vregister
-            .find_upvalue(upval)
+    /// The position of a captured variable in the frame of the function that creates the
+    /// closure (an argument index alone would name an argument of any other function as well).
+    fn find_upvalue(&self, mirfunc: &mir::Function, upval: &Arc<mir::Value>) -> Reg {
+        mirfunc
+            .upperfn_i
+            .and_then(|upperfn_i| self.vregister.find_upvalue(upperfn_i, upval))
             .expect("failed to find upvalue")
     }
     fn prepare_function(
@@ -1375,7 +1379,7 @@ impl ByteCodeGenerator {
         for (upval, ty) in mirfunc.upindexes.iter() {
             let (pos, outer_i) = match upval.as_ref() {
                 mir::Value::UpValue(i) => (0, Some(*i)),
-                _ => (self.find_upvalue(upval) as usize, None),
+                _ => (self.find_upvalue(mirfunc, upval) as usize, None),
             };
             func.upindexes.push(mir::OpenUpValue {
                 pos,
